@@ -60,6 +60,8 @@ MENU_RECESSION = [
     # same initial level as A, different shapes (ties in the sort key)
     ([10.0, 9.25, 8.0], [0, 1800, 5400]),                    # K 8, 9
     ([10.0, 7.5], [0, 7200]),                                # L 8, 9
+    # the very same levels as A on another time pattern
+    ([10.0, 8.5, 7.25, 6.0], [0, 1800, 3000, 12000]),        # M 6..9
 ]
 MENU_RISE = [
     ([2.0, 6.5], [0, 9.0]),        # 2..6
@@ -74,6 +76,7 @@ MENU_RISE = [
     ([24.75, 41.0], [0, 20.0]),    # 25..40 bridges to the long piece
     ([2.0, 4.5], [0, 3.0]),        # same initial level as the first
     ([2.0, 9.5], [0, 11.0]),       # same initial level, longer
+    ([2.0, 6.5], [0, 4.5]),        # the first piece's levels, half its depth
 ]
 MENUS = {'recession': MENU_RECESSION, 'rise': MENU_RISE}
 SHIFTS = [1000.0, -7.5, 1.6e9]
@@ -86,7 +89,7 @@ def decoy():
 
 def BOUND(tier):
     return ('all multisets of up to 4 of 100 lattice paths for the group '
-            'finder; all multisets of 2..%d pieces from two menus of 12 pieces x all '
+            'finder; all multisets of 2..%d pieces from two menus of 13 pieces x all '
             'orders x 3k+2 shift vectors; all relabellings of the main group'
             % (4 if tier == 'quick' else 5))
 
@@ -241,12 +244,12 @@ def spaces(tier):
         return out
     for size in ((2, 3, 4) if tier == 'quick' else (2, 3, 4, 5)):
         for menu in ('recession', 'rise'):
-            n_menu = 12 if (tier == 'thorough' or size < 4) else 8
+            n_menu = 13 if (tier == 'thorough' or size < 4) else 8
             out.append(multiset_space(menu, size, n_menu))
     # the same pieces on other level grids, in the same process
     for step in (0.5, 2.0):
         for menu in ('recession', 'rise'):
-            out.append(multiset_space(menu, 2 if tier == 'quick' else 3, 12,
+            out.append(multiset_space(menu, 2 if tier == 'quick' else 3, 13,
                                       step=step))
     return out
 
